@@ -179,6 +179,10 @@ func zeroTerm(s *Sort) Term {
 	panic("zeroTerm: " + s.String())
 }
 
+// curProgram gives value-level helpers access to the ghost-field registry: a
+// struct value carries its ghost fields after its real fields (sorted by key).
+var curProgram *Program
+
 func zeroVal(t types.Type) (SVal, error) {
 	if st, ok := t.Underlying().(*types.Struct); ok {
 		sv := StructV{T: t}
@@ -188,6 +192,15 @@ func zeroVal(t types.Type) (SVal, error) {
 				return nil, err
 			}
 			sv.F = append(sv.F, z)
+		}
+		if curProgram != nil {
+			for _, k := range curProgram.ghostKeysOf(typeKey(t)) {
+				z, err := zeroVal(curProgram.Ghosts[k].Type)
+				if err != nil {
+					return nil, err
+				}
+				sv.F = append(sv.F, z)
+			}
 		}
 		return sv, nil
 	}
